@@ -86,9 +86,13 @@ fn callee_run(storage: &mut dyn Storage, env: &Env, kind: &str, mode: &str, nev:
 }
 
 pub mod callee {
-    use sylvia::ctx::{ExecCtx, InstantiateCtx};
+    use sylvia::ctx::{ExecCtx, InstantiateCtx, QueryCtx};
     use sylvia::cw_std::{Response, StdResult};
     pub struct Callee;
+    #[sylvia::cw_schema::cw_serde(crate = "sylvia::cw_schema")]
+    pub struct CountResp {
+        pub count: u64,
+    }
     #[sylvia::contract]
     impl Callee {
         pub const fn new() -> Self {
@@ -101,6 +105,12 @@ pub mod callee {
         #[sv::msg(exec)]
         fn act(&self, ctx: ExecCtx, mode: String, nev: u32) -> StdResult<Response> {
             super::callee_run(ctx.deps.storage, &ctx.env, "exec", &mode, nev)
+        }
+        /// How often `act` has written (as far as the querying transaction can see).
+        #[sv::msg(query)]
+        fn count(&self, ctx: QueryCtx) -> StdResult<CountResp> {
+            let n = ctx.deps.storage.get(b"verif_count").and_then(|b| String::from_utf8(b).ok()).and_then(|t| t.parse().ok()).unwrap_or(0);
+            Ok(CountResp { count: n })
         }
     }
 }
@@ -116,7 +126,9 @@ pub fn chain_recv(recv: &str) -> Option<(Recv, CosmosMsg<Empty>)> {
     let nev: u32 = p[4].parse().unwrap_or(0);
     Some(match kind {
         "exec" => {
-            let w = WasmMsg::Execute { contract_addr: target.to_string(), msg: Binary::from(json!({"act":{"mode":mode,"nev":nev}}).to_string().into_bytes()), funds: vec![] };
+            // the message for the target is built by the target's own generated executor helper (C10), not written by hand
+            use callee::sv::Executor;
+            let w: WasmMsg = sylvia::types::Remote::<callee::Callee>::new(Addr::unchecked(target)).executor().act(mode.to_string(), nev).ok()?.build();
             (Recv::Wasm(w.clone()), w.into())
         }
         "inst" => {
@@ -130,6 +142,27 @@ pub fn chain_recv(recv: &str) -> Option<(Recv, CosmosMsg<Empty>)> {
             (Recv::Cosmos(c.clone()), c)
         }
     })
+}
+
+/// The caller remembers the contract its sub-message goes to (only a `WasmMsg::Execute` has one), so that its reply methods can ask it.
+pub fn note_target(storage: &mut dyn Storage, recv: &str) {
+    let p: Vec<&str> = recv.split('|').collect();
+    if p.len() == 5 && p[0] == "chain" && p[1] == "exec" {
+        storage.set(b"verif_callee", p[2].as_bytes());
+    } else {
+        storage.remove(b"verif_callee");
+    }
+}
+
+/// What a reply method sees of the target's counter through the target's generated querier helper, *inside* the running transaction
+/// ("-1": there is no target contract to ask).
+pub fn peek_callee(storage: &dyn Storage, querier: &sylvia::cw_std::QuerierWrapper) -> i64 {
+    use callee::sv::Querier;
+    let Some(addr) = storage.get(b"verif_callee").and_then(|b| String::from_utf8(b).ok()) else { return -1 };
+    match sylvia::types::Remote::<callee::Callee>::new(Addr::unchecked(addr)).querier(querier).count() {
+        Ok(r) => r.count as i64,
+        Err(_) => -2,
+    }
 }
 
 /// What the caller's `fire` handler reports about the sub-message the generated builder made.
